@@ -67,6 +67,16 @@ CHECKS = {
             "applied = acked + completed mailbox/WAL-drained barrier; crash = process death (no power-loss model); losses are attributed "
             "observationally (was the WAL line ever visible / still on disk at the crash) so that listed findings do not hide other losses",
             "DESIGN.md §4 C01"),
+    "C05": ("fault_enumeration",
+            "runtime monitoring: before/after relational oracle around deterministic compaction rounds + crash injection at every compaction step point",
+            "Three event types with different segment membership are flushed into k..2k+2 segments under merge fan-in 2..4 / zone sizes 1,2,5; "
+            "up to 6 rounds run through the repo's CompactionWorker/Handover with the shard's own live list and flush lock; rows (k, ctx, payload, "
+            "event id), typed REPLAY membership and COUNT/TOTAL/MIN/MAX are compared before/after each round, COUNT against distinct rows, and "
+            "index/live list against the executed plans; every cw/mc/zw/idx/ho/rc step point x first/last hit is crashed, restarted and compared "
+            "with the pre-round observation, followed by a further round.",
+            "deterministic rounds bypass only the timer and pressure gates of compactor/background.rs; aggregates are not compared across crash "
+            "restarts (C01's WAL double count would mask)",
+            "DESIGN.md §4 C05"),
 }
 
 PENDING_REASON = "check not built yet in this session (see DESIGN.md §10 for the order); no claim is made"
